@@ -2,6 +2,7 @@
 // the four flavours of the implementation in /repo and prints one canonical
 // observation line per step.  The same files are run by the extracted Coq model
 // (ocaml/driver.ml); the two outputs must be identical.
+pub mod shape;
 use std::cell::RefCell;
 use std::io::Write;
 use std::panic::{catch_unwind, AssertUnwindSafe};
